@@ -79,10 +79,22 @@ Definition ledger_step (g : ledger) (o : op) (x : out) : ledger :=
   | TokenRefresh _ _ rt _, OTokens t =>
       {| g_reqs := g_reqs g; g_codes := g_codes g; g_used := g_used g;
          g_rts := add_rt g t;
-         g_rot := match rt with Some n => n :: g_rot g | None => g_rot g end; g_norefresh := g_norefresh g |}
+         (* the presented token is dead from now on - unless the response hands that very token out again
+            (a storage that does not rotate) *)
+         g_rot := match rt with
+                  | Some n => if match t_rt t with Some m => Nat.eqb m n | None => false end
+                              then g_rot g else n :: g_rot g
+                  | None => g_rot g
+                  end;
+         g_norefresh := g_norefresh g |}
   | DropRefresh cl, ODone =>
       {| g_reqs := g_reqs g; g_codes := g_codes g; g_used := g_used g; g_rts := g_rts g; g_rot := g_rot g;
          g_norefresh := cl :: g_norefresh g |}
+  | RevokeRT n, ODone =>
+      (* a token the storage revoked or let expire is dead (only tokens that were handed out count) *)
+      {| g_reqs := g_reqs g; g_codes := g_codes g; g_used := g_used g; g_rts := g_rts g;
+         g_rot := match g_rt g n with Some _ => n :: g_rot g | None => g_rot g end;
+         g_norefresh := g_norefresh g |}
   | _, _ => g
   end.
 
@@ -180,9 +192,8 @@ Definition c07_ok (g : ledger) (o : op) (x : out) : bool :=
       match g_rt g n with
       | None => false
       | Some r =>
-          (* a token that a rotating storage already exchanged is dead; a non-rotating storage
-             (f_keep) keeps the presented token valid *)
-          (f_keep cf || negb (nat_in n (g_rot g)))
+          (* not a dead token (replaced by a rotating storage, revoked, expired) *)
+          negb (nat_in n (g_rot g))
           && f_refresh cf
           && cred_proves cf cr (r_client r)
           && client_refresh cf (r_client r) && negb (string_in (r_client r) (g_norefresh g))
